@@ -31,12 +31,18 @@ Clauses(want, raw, o) ==
 
 Cls(s) == s.cont \o "/" \o s.want.cls \o (IF s.raw.completeE THEN "" ELSE "/noCompleteE") \o (IF s.raw.completeF THEN "" ELSE "/noCompleteF")
 Judge(c, s, e) ==
-  IF e.exc # "" THEN Bad(IF e.op = "build" THEN "construction_succeeds" ELSE "building_again_succeeds", Cls(s), e.exc, s)
+  IF e.exc # "" THEN Bad(IF e.op = "build" THEN "construction_succeeds" ELSE IF e.op = "extend" THEN "building_the_extended_data_succeeds" ELSE "building_again_succeeds", Cls(s), e.exc, s)
   ELSE IF e.op = "build" THEN Check(Clauses(s.want, s.raw, e.obs), Cls(s), "", s)
   ELSE IF e.op = "rebuild" THEN        \* building again from the already built mesh changes nothing
        LET want2 == Rebuild(s.want, s.raw.completeE, s.raw.completeF)
            cl == Clauses(want2, AsRaw(s.want, s.raw.completeE, s.raw.completeF), e.obs)
        IN Check([i \in 1..Len(cl) |-> <<cl[i][1], "rebuild_" \o cl[i][2]>>], Cls(s), "", s)
+  ELSE IF e.op = "extend" THEN         \* the built mesh wrapped again, one vertex and the face e.newF appended behind the existing records, built again
+       LET b == s.want
+           r3 == [AsRaw(b, s.raw.completeE, s.raw.completeF) EXCEPT !.nv = b.nv + 1, !.F = b.F \o << e.newF >>]
+           want3 == [Build(r3) EXCEPT !.hard = IF HardFlagsExist(s.raw) THEN b.hard ELSE Hard(r3)]
+           cl == Clauses(want3, r3, e.obs)
+       IN Check([i \in 1..Len(cl) |-> <<cl[i][1], "extend_" \o cl[i][2]>>], Cls(s), "", s)
   ELSE Bad("unknown_operation", e.op, "", s)
 
 W == INSTANCE Walker
